@@ -108,6 +108,21 @@ def run(p):
                 p.stats.add('inputs:hp-whole-minutes-or-seconds')
         else:
             p.stats.add('inputs:decimal')
+            if rng.random() < 0.08:
+                # a value so small that its shortest decimal spelling uses an exponent (5e-05): a position within metres of the
+                # equator / Greenwich, an azimuth within a fraction of a second of north, a sub-millimetre distance
+                i = rng.randrange(4)
+                vals[i] = rng.choice([-1, 1]) * 10 ** rng.uniform(-9, -4.01)
+                if ep == 'vincdir' and i == 3:
+                    vals[i] = abs(vals[i])
+                p.stats.add('inputs:exponent-form')
+        if ft == 'dms' and rng.random() < 0.08:
+            # HP input whose seconds field is within 5e-7" of 60 (what dec2hp writes for an angle just under a whole minute)
+            for i in ANGLE_IN[ep]:
+                sg = -1.0 if vals[i] < 0 else 1.0
+                d = min(int(abs(vals[i])), 89 if (i == 0 or (ep == 'vincinv' and i == 2)) else 359)
+                vals[i] = sg * float(f'{d}.{rng.randrange(60):02}59{rng.choice(["9999999", "99999999", "999999999", "9999995"])}')
+            p.stats.add('inputs:hp-seconds-just-below-60')
         one(p, client, ep, ft, tt, vals)
         if rng.random() < 0.15:
             # the same four numbers to the OTHER endpoint straight afterwards, then the first one again: each answer is that
